@@ -45,6 +45,9 @@ func (e *specEnv) callExpr(n *ECall, hint types.Type) sv {
 	case "len", "cap":
 		argn(1)
 		x := e.eval(n.Args[0], nil)
+		if x.unk {
+			return sv{unk: true}
+		}
 		if x.typ == nil {
 			sfail("len of literal")
 		}
@@ -212,6 +215,26 @@ func (e *specEnv) callExpr(n *ECall, hint types.Type) sv {
 			sfail("lastbytes: no recorded []byte argument %s of %s (is it called in this function?)", ii.Val, id.Name)
 		}
 		return sv{Val: Val{t: e.st.get(u, k), typ: types.Typ[types.String]}}
+	case "calledwitharg":
+		// calledwitharg(Name, i, x): some call to Name made so far had x as its argument i (0 = receiver)
+		argn(3)
+		id, ok := n.Args[0].(*EIdent)
+		ii, ok2 := n.Args[1].(*EInt)
+		if !ok || !ok2 {
+			sfail("calledwitharg(Name, i, x)")
+		}
+		kk := "CalledWith." + id.Name + "." + ii.Val
+		if _, have := u.keySort[kk]; !have {
+			// no call met yet: the key's type is that of x itself
+			x := e.eval(n.Args[2], nil)
+			if x.typ == nil {
+				sfail("calledwitharg: cannot type the third argument")
+			}
+			u.regKey(kk, "(Array "+u.sortOf(x.typ)+" Bool)")
+			u.argKeyType[kk] = x.typ
+		}
+		x := e.eval(n.Args[2], u.argKeyType[kk])
+		return sv{Val: Val{t: "(select " + e.st.get(u, kk) + " " + e.term(x, u.argKeyType[kk]) + ")", typ: tBool}}
 	case "calledwith":
 		// calledwith(cb, x): the callback parameter cb has been called with first argument x
 		argn(2)
@@ -369,6 +392,12 @@ func (e *specEnv) callExpr(n *ECall, hint types.Type) sv {
 		fmt.Sscan(kk.Val, &k)
 		fmt.Sscan(ii.Val, &i)
 		calls := e.fr.callLog[id.Name]
+		if k >= 1 && k > len(calls) && len(calls) > 0 {
+			// fewer calls than the contract speaks about: the value is undetermined (the clause's
+			// own ncalls() conjunct decides); with no call at all the clause does not bind
+			u.note("%s: contract refers to call %d of %s, the body makes %d", e.fr.fn.Name(), k, id.Name, len(calls))
+			return sv{unk: true}
+		}
 		if k < 1 || k > len(calls) {
 			sfail("callarg: function makes %d call(s) to %s, call %d requested", len(calls), id.Name, k)
 		}
@@ -393,6 +422,10 @@ func (e *specEnv) callExpr(n *ECall, hint types.Type) sv {
 		fmt.Sscan(kk.Val, &k)
 		fmt.Sscan(ii.Val, &i)
 		calls := e.fr.resLog[id.Name]
+		if k >= 1 && k > len(calls) && len(calls) > 0 {
+			u.note("%s: contract refers to call %d of %s, the body makes %d", e.fr.fn.Name(), k, id.Name, len(calls))
+			return sv{unk: true}
+		}
 		if k < 1 || k > len(calls) {
 			sfail("callres: function makes %d call(s) to %s, call %d requested", len(calls), id.Name, k)
 		}
